@@ -276,7 +276,8 @@ def run(ck: Check):
     bad = ck.coq_eval("comp", HEADER, terms, "comp_case", "check_comp", shard=150)
     ck.run_fixed({"hard_coded_kwargs_reach_the_child_as_they_are": "C14:kwargs"})
     ck.run_fixed({"tree_started_inside_a_component": "C14:remap",
-                  "default_name_is_remapped_only_while_starting": "C14:remap"})
+                  "default_name_is_remapped_only_while_starting": "C14:remap",
+                  "overridden_default_types_need_not_exist": "C14:tree"})
     seen, n_fail = {}, 0
     for c, o in zip(cases, obs):
         for sig, what in oracle(c, o):
